@@ -155,12 +155,28 @@ func RunProcCase(seed int64, o ProcOpts) *HistResult {
 		otherShapes = append(otherShapes, sh)
 		specs = append(specs, gen.PipeSpec{Name: fmt.Sprintf("other%d", i), Def: mkDef(sh), Graph: gen.Graph{Names: []string{"tree"}, Deps: map[string][]string{}}})
 	}
+	if o.ViaShutdown {
+		// a runner that is shut down usually also holds jobs that ended long ago
+		specs = append(specs, gen.PipeSpec{Name: "ended", Def: definition.PipelineDef{Concurrency: 4, Tasks: map[string]definition.TaskDef{"t": {Script: []string{"true"}}}, SourcePath: "gen"}, Graph: gen.Graph{Names: []string{"t"}, Deps: map[string][]string{}}})
+	}
 	sys, _, _, err := realSys(specs, dir, o.KillTimeout)
 	if err != nil {
 		res.Inconclusive = err.Error()
 		return res
 	}
 	defer sys.Close()
+	if o.ViaShutdown {
+		var ended []string
+		for i := 0; i < 12; i++ {
+			if id, cls := sys.Schedule(0, "ended", nil, "u"); cls == "ok" {
+				ended = append(ended, id)
+			}
+		}
+		if !waitJobs(sys, ended, 30*time.Second) {
+			res.Inconclusive = "jobs of one `true` command did not end"
+			return res
+		}
+	}
 	// heartbeat clock for the two timed statements
 	var beats atomic.Int64
 	stopBeat := make(chan struct{})
